@@ -41,7 +41,6 @@ func (e *verif17Env) completeTorrent() bool {
 	return true
 }
 
-
 // wbHooks installs the bookkeeping around every applied event: completion
 // notices fired by dispatchers (each is one more asynchronous sender), and,
 // when cut is set, the exclusion of the window written up in FINDINGS.md.
@@ -79,8 +78,9 @@ func (e *verif17Env) wbHooks() {
 // unbuffered event channel); the loop then receives them in every order, and
 // the remote peer may complete the torrent between any two events (its
 // completion notice then joins the blocked senders).
-//   withD2: a second Download of the same blob
-//   x: 0 nothing else, 1 RemoveTorrent, 2 preemption tick, 3 Stop
+//
+//	withD2: a second Download of the same blob
+//	x: 0 nothing else, 1 RemoveTorrent, 2 preemption tick, 3 Stop
 func (e *verif17Env) run() {
 	e.wbHooks()
 	verif.Option("max_preempt", 0)
@@ -146,4 +146,3 @@ func VerifDownloadFindingRemovalRace() {
 	e := verif17NewEnv(false)
 	e.run()
 }
-
